@@ -31,6 +31,10 @@ def run(ctx):
     keys_rules(ctx)
 
 
+def keys_unused(ctx):
+    return None
+
+
 def convert_rules(ctx):
     R = ctx.report
     repo = ctx.repo
@@ -44,6 +48,20 @@ def convert_rules(ctx):
     raw = [(g, t) for g, t in alts if isinstance(t, App) and t.op == "meth:public_bytes"]
     R.rule("C15-D1 fixed-width X||Y", 5, "both widths one expression, independent of the coordinate values, 32/48/66 by curve, big endian, X then Y")
     if len(xy) != 1:
+        # the other sound form: the X9.62 uncompressed point 04 || X || Y with exactly the first byte removed by position
+        x962 = []
+        for g, t in alts:
+            pbs = [s_ for s_ in subterms(t) if isinstance(s_, App) and s_.op == "meth:public_bytes" and "X962" in repr(s_)]
+            if pbs:
+                x962.append((t, pbs[0]))
+        if x962:
+            R.rule("C15-D1 fixed-width X||Y", 1, "X9.62 uncompressed point with the leading 04 removed by position")
+            for t, pb in x962:
+                good = t == App("slice", (pb, Const(1), Const(None), Const(None))) and "UncompressedPoint" in repr(pb)
+                R.check("C15-D1 fixed-width X||Y", good, "X||Y = uncompressed point without its first byte", mod=fi.module, node=fi.node, function=fq,
+                        expected="public_bytes(X962, UncompressedPoint)[1:] - exactly one byte removed, whatever the coordinates are",
+                        found=f"{t!r}"[:200] + " (a value-dependent strip removes coordinate bytes equal to 0x04 as well)")
+            return keys_unused(ctx)
         raise AnalysisError(f"{fq}: X||Y form not recognised ({len(xy)})")
     g, t = xy[0]
     tb = [p for p in cat_parts(t) if isinstance(p, App) and p.op == "meth:to_bytes"]
@@ -163,10 +181,40 @@ def convert_rules(ctx):
             expected="self._indentation + row_text.strip()", found=repr(fo[0].value)[:200] if fo else "?")
     lv = repo.func(CONV, "KeyConverter._prepare_length_variable")
     av = repo.func(CONV, "KeyConverter._prepare_array_variable")
-    lsrc, asrc = ast.unparse(lv.node), ast.unparse(av.node)
-    R.check("C15-D2b formatting covers every byte once", "sizeof({self._array_name})" in lsrc and "{self._array_name}[]" in asrc,
+    NAME = App("attr:_array_name", (SELF,))
+
+    def atoms(t):
+        if isinstance(t, App) and t.op in ("cat", "+"):
+            out = []
+            for x in t.args:
+                out += atoms(x)
+            return out
+        if isinstance(t, App) and t.op in ("str", "call:str") and len(t.args) == 1 and isinstance(t.args[0], App) and t.args[0].op in ("cat", "+", "phi"):
+            return atoms(t.args[0])
+        return [t]
+
+    def follows(fi_, marker, before):
+        """in every non-empty alternative of the returned text, the array name stands right after (before=False) / before the marker"""
+        seen_, ok_ = 0, True
+        for o_ in ev.outcomes(fi_):
+            if o_.kind != "return":
+                continue
+            for g_, t in cases(o_.value):
+                at = atoms(t)
+                for i_, a_ in enumerate(at):
+                    if isinstance(a_, Const) and isinstance(a_.v, str) and marker in a_.v and not (a_.v.endswith(marker) if not before else a_.v.startswith(marker)):
+                        seen_ += 1
+                        ok_ = False  # the name next to the marker is a literal, not the configured array name
+                    if isinstance(a_, Const) and isinstance(a_.v, str) and (a_.v.endswith(marker) if not before else a_.v.startswith(marker)):
+                        seen_ += 1
+                        nb = at[i_ + 1] if not before and i_ + 1 < len(at) else (at[i_ - 1] if before and i_ > 0 else None)
+                        if nb not in (NAME, App("str", (NAME,))):
+                            ok_ = False
+        return seen_ > 0 and ok_
+    R.check("C15-D2b formatting covers every byte once", follows(lv, "sizeof(", False) and follows(av, "[]", True),
             "length variable = sizeof(<the array defined above>)", mod=lv.module, node=lv.node, function=ctx.fq(lv),
-            expected="sizeof(array_name) with the same name as the definition", found="names differ or not recognised")
+            expected="sizeof(self._array_name) in every variant of the length line, the same name as in the definition",
+            found="some variant of the length line measures another name")
     R.rule("C15-D2c CLI plumbing", 13, "main passes every option to the constructor parameter of the same name")
     n = argname.check_function(ctx, "C15-D2c CLI plumbing", repo.func(CONV, "main"))
     if n < 13:
